@@ -66,16 +66,21 @@ MANIFEST = dict(
          "well-formed in the target format and its timeline (notes: kind, column, start, end; tempo points) equals the source "
          "file's to within the coarser of the two formats' resolutions at the local tempo (Formats/Timeline.v, Corr/RunC09.v); a "
          "sharper correspondence relation (truncation toward zero / nearest snap, composed from the denotations) catches changes "
-         "that stay inside the resolution. Proved for all inputs (Props/C09.v, 54 closed theorems): the comparison is reflexive, "
+         "that stay inside the resolution. Proved for all inputs (Props/C09.v, 66 closed theorems): the comparison is reflexive, "
          "symmetric, triangular, monotone, order- and shift-invariant and the runner's oracle is sound for it; every adapter maps "
          "the format's own 'same denotation' to 'same timeline'; and END-TO-END theorems for all 16 pairs by composing the "
          "whole-file reader theorem of the source (C01/C06/C02/C04/C07), the GENERATED converter description (C08's conv_chart over "
          "Tables.convert, re-translated from the converters' source on every run) applied to every frame-level chart carrying the "
          "rows read, and the whole-file writer theorem of the target (C06/C01/C03/C05): the written file is well formed and "
-         "timeline_close to the source file (1 ms to Quaver / osu!, exact inside C03's / C05's exact domains), the converted "
-         "chart's membership in the writer's domain proved for Quaver targets and a decidable hypothesis otherwise; seven pairs "
-         "are full, nine are named _partial (StepMania / BMS sources: the reader theorems do not determine the reseated tempo "
-         "list, a decidable hypothesis stands in; BMS targets: exact regime only); the metadata path is not composed. "
+         "timeline_close to the source file (1 ms to Quaver / osu!, exact inside C03's exact domain, to BMS inside C05's write_dom "
+         "within 1/192 beat at the local tempo by C05_bms_write_timeline and exact on the snap grid), the converted chart's "
+         "membership in the writer's domain proved for Quaver targets and a decidable hypothesis otherwise. All 16 pairs are full: "
+         "ten (osu / Quaver / O2Jam sources) with no further hypothesis, the six StepMania / BMS-source pairs under a decidable guard "
+         "on the TEXT, every tempo change on a measure line (sm_tempo_on_lines / bms_tempo_on_lines, where "
+         "C02_sm_read_tempo_list_on_lines / C04_bms_read_tempo_list_on_lines determine the chart's tempo list); tempo changes off "
+         "the measure lines are outside on purpose, that is the open finding tempo-reseated; the general per-chart forms (chart's "
+         "tempo list equals the file's: sm_tempo_same / bms_tempo_same) stay under their _partial names; the metadata path is "
+         "not composed. "
          "The check found ten defect "
          "classes of the pinned tree (27 pair:cause keys, each with a minimal file in corpus/C09). Six are repaired in /repo and "
          "recorded as 'fixed' (a recurrence raises a VIOLATION labelled regression:<key>; reverting any of the commits makes the "
